@@ -118,6 +118,49 @@ Fixpoint in_fragment (s : schema) : bool :=
       match addl with Some sa => in_fragment sa | None => true end
   end.
 
+(* Three-valued validation, for schemas that have left the modelled fragment: an Unsupported node yields "unknown";
+   conjunctions are Kleene's (a definite failure elsewhere still decides, unknown otherwise).  Used only by the
+   judges as the reference verdict when a schema change introduces unmodelled keywords or a broken $ref: the model
+   then still knows that e.g. a document without a required member is invalid whatever the unknown part says. *)
+Definition and3 (a b : option bool) : option bool :=
+  match a, b with
+  | Some false, _ | _, Some false => Some false
+  | Some true, Some true => Some true
+  | _, _ => None
+  end.
+Fixpoint forall3 {A} (f : A -> option bool) (l : list A) : option bool :=
+  match l with [] => Some true | x :: r => and3 (f x) (forall3 f r) end.
+
+Fixpoint validate3 (s : schema) (d : doc) {struct s} : option bool :=
+  match s with
+  | SUnsupported _ => None
+  | SBool b => Some b
+  | SNode ty props req items pats addl mn mx =>
+      and3 (Some (type_ok ty d && range_ok mn mx d))
+      match d with
+      | DObj fields =>
+          and3 (Some (forallb (fun r => mem_s r (keys fields)) req))
+          (and3 ((fix vprops (ps : list (string * schema)) : option bool :=
+                    match ps with
+                    | [] => Some true
+                    | (k', s') :: rest =>
+                        and3 (forall3 (fun kv => if String.eqb (fst kv) k' then validate3 s' (snd kv) else Some true) fields) (vprops rest)
+                    end) props)
+          (and3 ((fix vpats (ps : list (kpat * schema)) : option bool :=
+                    match ps with
+                    | [] => Some true
+                    | (p, s') :: rest =>
+                        and3 (forall3 (fun kv => if pat_matches p (fst kv) then validate3 s' (snd kv) else Some true) fields) (vpats rest)
+                    end) pats)
+                match addl with
+                | Some sa => forall3 (fun kv => if is_additional props pats (fst kv) then validate3 sa (snd kv) else Some true) fields
+                | None => Some true
+                end))
+      | DArr l => match items with Some si => forall3 (validate3 si) l | None => Some true end
+      | _ => Some true
+      end
+  end.
+
 (* ------------------------------------------------------------------------------------------------ *)
 (* declarative semantics (draft-07), clause by clause *)
 
